@@ -46,8 +46,6 @@ TView == <<cfg, store, closed, pc, call, res, todo, l>>
 Trace == ndJsonDeserialize("trace.ndjson")
 N     == Len(Trace)
 
-ReadOnlyOps == {"Get", "Has", "Iterate", "IterateKeys", "Flush"}
-
 (* the result of the call invoked by thread t at line i: its next ret line inside the history *)
 RECURSIVE WantOf(_, _)
 WantOf(t, i) == IF i > N \/ Trace[i].op \in {"reset", "final"} THEN NoRes
@@ -86,7 +84,7 @@ WantedLin(t) == /\ Lin(t)
 
 Eager(t)    == (pc[t] = "invoked" /\ call[t].op \in ReadOnlyOps) \/ pc[t] = "flushing"    \* steps that change nothing
 EagerLin(t) == Eager(t) /\ WantedLin(t)
-EagerSet    == {t \in Threads : Eager(t) /\ ENABLED EagerLin(t)}
+EagerSet    == {t \in Threads : Eager(t) /\ QuietRes(t) = want[t]}      \* = ENABLED EagerLin(t), by ReadResAgrees
 
 Silent == /\ l <= N
           /\ Trace[l].op = "ret"
